@@ -435,7 +435,7 @@ func generateTables(source *syntax.Model, out *grammar.Grammar, opts genOptions,
 	// The very first action is a no-op.
 	parser.Actions = append(parser.Actions, grammar.SemanticAction{})
 	var rules []*grammar.Rule
-	midrule := newCommandExtractor(source, len(out.Syms))
+	midrule := newCommandExtractor(source, out.Syms)
 	for self, nt := range source.Nonterms {
 		if nt.Value.Kind == syntax.Lookahead {
 			la := lalr.Lookahead{
@@ -716,6 +716,7 @@ func addTypes(vars *grammar.ActionVars, syms []grammar.Symbol) {
 type commandExtractor struct {
 	baseSyms  int
 	takenName map[string]bool
+	takenID   map[string]bool // identifiers of all symbols, see Symbol.ID
 	index     map[commandKey]lalr.Sym
 	prev      *syntax.Nonterm
 	counter   int
@@ -732,7 +733,7 @@ type commandKey struct {
 	varsDigest string
 }
 
-func newCommandExtractor(m *syntax.Model, baseSyms int) *commandExtractor {
+func newCommandExtractor(m *syntax.Model, syms []grammar.Symbol) *commandExtractor {
 	taken := make(map[string]bool)
 	for _, t := range m.Terminals {
 		taken[t.Name] = true
@@ -743,7 +744,11 @@ func newCommandExtractor(m *syntax.Model, baseSyms int) *commandExtractor {
 	for _, nt := range m.Nonterms {
 		taken[nt.Name] = true
 	}
-	return &commandExtractor{takenName: taken, index: make(map[commandKey]lalr.Sym), baseSyms: baseSyms}
+	takenID := make(map[string]bool)
+	for _, sym := range syms {
+		takenID[sym.ID] = true
+	}
+	return &commandExtractor{takenName: taken, takenID: takenID, index: make(map[commandKey]lalr.Sym), baseSyms: len(syms)}
 }
 
 func (e *commandExtractor) extract(n *syntax.Nonterm, command string, vars *grammar.ActionVars, cmdOrigin status.SourceNode) lalr.Sym {
@@ -762,11 +767,13 @@ func (e *commandExtractor) extract(n *syntax.Nonterm, command string, vars *gram
 	for {
 		e.counter++
 		name = fmt.Sprintf("%s$%v", n.Name, e.counter)
-		if _, ok := e.takenName[name]; !ok {
+		// Note: "x$1" and a terminal "x_1" both map to X_1, skip identifiers in use as well.
+		if !e.takenName[name] && !e.takenID[ident.Produce(name, ident.CamelCase)] {
 			break
 		}
 	}
 	e.takenName[name] = true
+	e.takenID[ident.Produce(name, ident.CamelCase)] = true
 	var args *syntax.CmdArgs
 	if vars != nil {
 		args = new(syntax.CmdArgs)
